@@ -34,7 +34,10 @@ MANIFEST = {
             "simple and CID-keyed layouts with 1-3 font DICTs. TLC then enumerates structure descriptors of fonts "
             "(glyph-name/CID run structures, FDSelect patterns, the upper end and the value below it of every count field: "
             "255/256 private dictionaries with FDSelect formats 3 and 0, 65534/65535 glyphs, CID 65535, 254-256 encoded "
-            "codes, 255 supplements, encodings incl. supplements and predefined ones, "
+            "codes, 255 supplements, every settable DICT scalar over every operator's default value +-1 (table of "
+            "defaults of TN5176), empty INDEX elements (FontName, glyph name, Registry/Ordering), harness-assembled files "
+            "with predefined charsets 0/1/2 and encodings 0/1 at 1, 2, len-1, len glyphs, width minus nominalWidthX at "
+            "+-32767..32769, +-1131/1132, +-107/108, encodings incl. supplements and predefined ones, "
             "integer/fractional width patterns, DICT integers at every size class, reals with 1-9 digits and exponents "
             "to +-290, every shape of a DICT real (sign x 1-9 significant digits x decimal-point position from 0.0000ddd "
             "to ddd0000 and exponent forms) in every float-typed field (FontMatrix, FD FontMatrix, StdHW, StdVW, BlueScale, "
@@ -48,8 +51,8 @@ MANIFEST = {
             "(cross-checked once against the library's tables). Not covered: FontMatrix/BlueScale within the "
             "writer's documented tolerance of the default (1e-5 / 1e-6), values of reals outside 1e-290..1e290 (for "
             "those only termination and success of Write/Read are judged; a call is a failure after 8 s), ItalicAngle "
-            "below 1e-3, BlueValues deltas beyond int16, glyph outlines (C04/C05), widths whose distance to "
-            "nominalWidthX exceeds 32767, strings other than printable ASCII.",
+            "below 1e-3, BlueValues deltas beyond int16, glyph outlines (C04/C05), strings other than printable ASCII; "
+            "DICT operators the cff.Font API cannot set (PaintType, StrokeWidth, ExpansionFactor, LanguageGroup, CIDFont*).",
     "technique": "TLA+ model checking (TLC) of CFFLayout.tla + TLC-generated abstract fonts replayed into "
                  "cff.Font.Write/cff.Read, recorded bytes and projection validated by TLC against CFFLayoutTrace.tla",
 }
@@ -166,6 +169,40 @@ def _case_of(line):
     return int(m.group(1)) if m else None
 
 
+def _width_operand(head):
+    """Evidence only: the leading width operand of a charstring head (bytes up to the first operator), if the
+    head is <width> endchar / <width> dx dy rmoveto / <width> d h|vmoveto, or <a> <b> add ... (sum of two)."""
+    vals, i = [], 0
+    while i < len(head):
+        b = head[i]
+        if b == 28 and i + 2 < len(head):
+            v = (head[i + 1] << 8) | head[i + 2]
+            vals.append(v - 65536 if v >= 32768 else v)
+            i += 3
+        elif b == 255 and i + 4 < len(head):
+            v = (head[i + 1] << 24) | (head[i + 2] << 16) | (head[i + 3] << 8) | head[i + 4]
+            vals.append((v - (1 << 32) if v >= 1 << 31 else v) / 65536)
+            i += 5
+        elif 32 <= b <= 246:
+            vals.append(b - 139)
+            i += 1
+        elif 247 <= b <= 250 and i + 1 < len(head):
+            vals.append((b - 247) * 256 + head[i + 1] + 108)
+            i += 2
+        elif 251 <= b <= 254 and i + 1 < len(head):
+            vals.append(-(b - 251) * 256 - head[i + 1] - 108)
+            i += 2
+        else:
+            break
+    op = head[i:] if i < len(head) else []
+    want = {(14,): 1, (21,): 3, (22,): 2, (4,): 2}.get(tuple(op))
+    if want is not None and len(vals) == want:
+        return vals[0]
+    if op == [12, 10] and len(vals) == 2:
+        return vals[0] + vals[1]
+    return None
+
+
 class Stats:
     """Measured coverage of the recorded files (evidence only, no verdicts)."""
 
@@ -173,10 +210,26 @@ class Stats:
         self.offsets = collections.defaultdict(set)   # threshold -> {(field, delta)}
         self.forms = collections.Counter()
         self.index_last = set()                       # (INDEX, last offset) next to 256 / 65536
+        self.unjudged = {}                            # case id -> description of a recorded-only file
+        self.unjudged_read = set()                    # what cff.Read did with them
+        self.width_ops = set()                        # width operands (width - nominalWidthX) next to a form boundary
+        self.empty_items = set()                      # INDEXes seen with an empty element
         self.files = 0
 
     def observe(self, lines):
         for ln in lines:
+            if '"ev":"reset"' in ln and '"judge":false' in ln:
+                c = json.loads(ln)["c"]
+                with _lock:
+                    self.unjudged[c["id"]] = "predefined charset %d with %d glyphs" % (c["asm"]["charset"], c["n"])
+                continue
+            if '"ev":"read"' in ln and self.unjudged:
+                e = json.loads(ln)
+                if e["case"] in self.unjudged:
+                    with _lock:
+                        self.unjudged_read.add("%s: %s" % (self.unjudged[e["case"]],
+                                                           "read without error" if e["ok"] else "Read error: " + e["err"]))
+                continue
             if '"ev":"raw"' not in ln:
                 continue
             e = json.loads(ln)
@@ -209,6 +262,14 @@ class Stats:
                             if t - 2 <= last <= t + 1:
                                 self.index_last.add((nm, last))
                 self.forms["header offSize %d" % e["hdr"][3]] += 1
+                for nm in ("name", "str"):
+                    o = e[nm]["offs"]
+                    if any(a == b for a, b in zip(o, o[1:])):
+                        self.empty_items.add(nm)
+                for h in e["csHead"]:
+                    v = _width_operand(h)
+                    if v is not None and any(abs(abs(v) - t) <= 1 for t in (107.5, 1131.5, 32768)):
+                        self.width_ops.add(v)
 
     def summary(self):
         hit = {}
@@ -218,6 +279,9 @@ class Stats:
             hit[str(t)] = {"stored_value_t_minus_1": below, "stored_value_at_or_just_above_t": above}
         return {"files_walked": self.files, "boundary_hits": hit,
                 "index_last_offset_near_offSize_boundary": sorted("%s:%d" % x for x in self.index_last),
+                "width_operands_next_to_a_number_form_boundary": sorted(self.width_ops),
+                "indexes_with_empty_element": sorted(self.empty_items),
+                "recorded_not_judged": sorted(self.unjudged_read),
                 "forms_seen": dict(sorted(self.forms.items()))}
 
 
@@ -360,7 +424,7 @@ def run(ctx):
     ctx.assumptions += [
         "FontMatrix / BlueScale values are either equal to the default or farther from it than the writer's "
         "tolerance (1e-5 / 1e-6); |reals| in 1e-290..1e290 with at most nine digits; 1e-3 <= |ItalicAngle| < 180",
-        "BlueValues/OtherBlues deltas fit in int16; widths and their distance to nominalWidthX stay below 32767",
+        "BlueValues/OtherBlues deltas fit in int16; widths are integers or 16.16 fractions below 50000 in magnitude",
         "strings are printable ASCII; glyph outlines are fixed small shapes (outline fidelity is C04/C05)",
         "an absent Encoding means the Standard Encoding (TN5176 default); for CID-keyed fonts an absent top-level "
         "FontMatrix means the identity and an absent Font DICT FontMatrix means 0.001 0 0 0.001 0 0",
@@ -408,6 +472,11 @@ def run(ctx):
     maxima = pool.add(_gen(ctx, "maxima", label="CFFLayoutGen maxima (exhaustive)"))
     bad += _validate_all(ctx, binp, maxima, "maxima", stats, chunk=1)
 
+    # 2a-4. edges: every settable scalar over every operator's default value (+-1), empty INDEX elements, files with
+    # predefined charsets / encodings assembled by the harness, width - nominalWidthX at the ends of the number forms
+    edges = pool.add(_gen(ctx, "edges", label="CFFLayoutGen edges (exhaustive)"))
+    bad += _validate_all(ctx, binp, edges, "edges", stats)
+
     # 2b. paddings that move every stored offset across every boundary
     kinds = (0, 2) if ctx.quick() else (0, 1, 2, 3)
     jlo, jhi = (-7, 1) if ctx.quick() else (-14, 3)
@@ -436,9 +505,9 @@ def run(ctx):
         bad += _validate_all(ctx, binp, big, "big", stats, chunk=2)
 
     ctx.cov["distinct_nontrivial"] = pool.n
-    ctx.cov["rule"] = ("distinct abstract fonts generated by TLC (ofat %d + real-number shapes %d + count maxima %d + sweep %d + rand %d + big %d), each written by "
+    ctx.cov["rule"] = ("distinct abstract fonts generated by TLC (ofat %d + real-number shapes %d + count maxima %d + edges %d + sweep %d + rand %d + big %d), each written by "
                        "the library, walked, read back and judged by TLC; evaluations = recorded events validated"
-                       % (len(ofat), len(shapes), len(maxima), len(sweep), len(rand), nbig))
+                       % (len(ofat), len(shapes), len(maxima), len(edges), len(sweep), len(rand), nbig))
     ctx.cov["bounds"]["recorded_files"] = stats.summary()
     if bad:
         _report(ctx, bad)
